@@ -2029,3 +2029,67 @@ func (fam *Family) Bump(n string) { f := lookup(n); f.size++ }
 	r.Floor("E7.cached-object-selftest", 2)
 	r.OK("E7.cached-object-written", "module|objects handed out from package-level caches", c.Pos(c.MustPkg("").Syntax[0].Pos()), fmt.Sprintf("%d functions, %d writes through a cached object", len(fns), n))
 }
+
+// E7GlobalMapEscapes: a package-level map is read in place, never handed on.
+func E7GlobalMapEscapes(c *core.Ctx, r *core.Report) {
+	r.Rule("E7.global-map-escapes", "a map is a reference: whoever receives the value of a package-level map can write the one map every goroutine shares. Outside package initialisation, every load of a package-level map of the module is used only to look an entry up, to range over it or to take its length; it is not passed to a call, stored into a struct, slice, map or interface, returned or merged at a φ. (A constant stream dictionary hoisted to package level is handed to the PDF value writer, which stores the stream's /Length into the dictionary it is given: concurrent documents overwrite each other's length.) On the SSA form of the whole module; the stores themselves are the subject of E7.global")
+	fns := moduleFunctions(c)
+	loads, bad := 0, 0
+	// reviewed: functions outside C20's API set, one reason each
+	outOfScope := map[string]string{
+		"(*canvas.dviFonts).Get": "LaTeX/DVI font lookup is not in C20's API set (the same exclusion as in E7.map-order); the selected character table is kept in the dviFont and only ever indexed",
+	}
+	for _, fn := range fns {
+		if fn.Name() == "init" && fn.Parent() == nil {
+			continue
+		}
+		if why, ok := outOfScope[core.ShortFunc(fn)]; ok {
+			r.OK("E7.global-map-escapes", core.ShortFunc(fn)+"|not held to the rule", c.Pos(fn.Pos()), why)
+			continue
+		}
+		for _, b := range fn.Blocks {
+			for _, ins := range b.Instrs {
+				u, ok := ins.(*ssa.UnOp)
+				if !ok || u.Op != token.MUL {
+					continue
+				}
+				g, ok := u.X.(*ssa.Global)
+				if !ok || g.Pkg == nil || !strings.HasPrefix(g.Pkg.Pkg.Path(), core.Module) {
+					continue
+				}
+				if _, isMap := u.Type().Underlying().(*types.Map); !isMap {
+					continue
+				}
+				loads++
+				for _, ref := range *u.Referrers() {
+					okUse := false
+					switch x := ref.(type) {
+					case *ssa.Lookup:
+						okUse = x.X == ssa.Value(u)
+					case *ssa.Range:
+						okUse = true
+					case *ssa.MapUpdate:
+						okUse = true // a store: E7.global decides it
+					case *ssa.Call:
+						if bi, ok := x.Call.Value.(*ssa.Builtin); ok && (bi.Name() == "len" || bi.Name() == "delete") {
+							okUse = true
+						}
+					case *ssa.DebugRef:
+						okUse = true
+					case *ssa.BinOp:
+						okUse = true // comparison with nil
+					}
+					if !okUse {
+						bad++
+						r.Fail("E7.global-map-escapes", fmt.Sprintf("%s|%s handed on", core.ShortFunc(fn), g.Name()), c.Pos(ref.Pos()), fmt.Sprintf("the package-level map %s is handed on (%T) instead of being read in place: whoever receives it writes the map that all goroutines share", g.Name(), ref))
+					}
+				}
+			}
+		}
+	}
+	r.Count("E7.global-map-loads", loads)
+	r.Floor("E7.global-map-loads", 3)
+	if bad == 0 {
+		r.OK("E7.global-map-escapes", "module|loads of package-level maps", c.Pos(c.MustPkg("").Syntax[0].Pos()), fmt.Sprintf("%d loads, all looked up, ranged over or measured in place", loads))
+	}
+}
